@@ -94,8 +94,13 @@ DeclarativeAgrees == (st = St0) =>
   ELSE IF style = "none" THEN ~a.free /\ a.ks = { 1..Len(file) }
   ELSE a.free
 \* look-alikes never set an index: whatever was found sits at the real markers
+\* (the first kernel line is the first non-.byte line after the start marker; with a start marker
+\* only, .byte lines of the epilogue may directly follow an all-.byte body)
 LookAlikesInert == Done =>
-  /\ st.start \in {0, Lo + Lead}
+  /\ \/ st.start = 0
+     \/ /\ st.start >= Lo + Lead
+        /\ \A p \in Lo..(st.start - 1) : file[p].k = "bytes"
+        /\ (st.start = Lo + Lead \/ style = "startonly")
   /\ st.end \in {0, Hi + 1}
   /\ (style = "none") => (st.start = 0 /\ st.end = 0)
 \* the scan does not look past the end marker once both markers were seen
